@@ -1,20 +1,44 @@
 //@@INCLUDE _shared/header.rs
 //@@INCLUDE _shared/diagn_opaque.rs
+pub mod symspec {
+    use vstd::prelude::*;
+    verus! {
+    /// the text of a key of a generic type S: Borrow<str>
+    pub uninterp spec fn key_text<S>(s: &S) -> Seq<char>;
+    pub open spec fn texts<S>(s: Seq<S>) -> Seq<Seq<char>> { Seq::new(s.len(), |i: int| key_text(&s[i])) }
+
+    /// texts() commutes with taking sub-ranges (used for `&hierarchy[1..]`, `split_last`, ...)
+    pub broadcast proof fn lemma_texts_subrange<S>(s: Seq<S>, a: int, b: int)
+        requires 0 <= a <= b <= s.len()
+        ensures #[trigger] texts(s.subrange(a, b)) =~= texts(s).subrange(a, b)
+    {
+    }
+    pub broadcast proof fn lemma_drop_first_is_subrange(t: Seq<Seq<char>>)
+        requires t.len() >= 1
+        ensures #[trigger] t.drop_first() =~= t.subrange(1, t.len() as int)
+    {
+    }
+
+    }
+}
 pub mod util {
     use vstd::prelude::*;
     use crate::*;
+    use crate::symspec::*;
     verus! {
+    broadcast use {crate::symspec::lemma_texts_subrange, crate::symspec::lemma_drop_first_is_subrange};
     /// R8 helper: stands for `MAP.get(KEY.borrow())` on a HashMap<String, ItemRef<T>> with a key of a type
     /// S: Borrow<str>.  ASSUMED contract: the result is the uninterpreted lookup `spec_lookup` of the key's
     /// text in the map (vstd cannot relate String keys to borrowed &str keys for a generic S).
-    pub uninterp spec fn key_text<S>(s: &S) -> Seq<char>;
     pub uninterp spec fn spec_lookup<T>(m: &std::collections::HashMap<String, util::ItemRef<T>>, key: Seq<char>) -> Option<util::ItemRef<T>>;
     #[verifier::external_body]
     pub fn verif_lookup<'a, T, S: std::borrow::Borrow<str>>(m: &'a std::collections::HashMap<String, util::ItemRef<T>>, key: &S) -> (r: Option<&'a util::ItemRef<T>>)
         ensures (match r { Some(x) => spec_lookup(m, key_text(key)) == Some(*x), None => spec_lookup(m, key_text(key)) is None })
     { unimplemented!() }
 
-    pub open spec fn texts<S>(s: Seq<S>) -> Seq<Seq<char>> { Seq::new(s.len(), |i: int| key_text(&s[i])) }
+    // std gaps (ASSUMED)
+    pub assume_specification<T>[ <[T]>::split_last ](s: &[T]) -> (r: Option<(&T, &[T])>)
+        ensures (match r { None => s@.len() == 0, Some((last, rest)) => s@.len() >= 1 && *last == s@[s@.len() - 1] && rest@ == s@.subrange(0, s@.len() - 1) });
 
     impl<T> SymbolManager<T> {
         /// every stored reference points at an existing declaration
